@@ -27,7 +27,12 @@ FILES = [c07.fspec("ML", 40, "UPPER", pat="ramp7", load=0x3000, exec_=0x3005), c
          c07.fspec("ML", 55, "UPPER", pat="ramp", load=0x3100, exec_=0x3101),
          # headerless files whose length is a whole number of sectors (the directory's bytes-in-last-sector field is 0), and an empty one
          c07.fspec("ASC", 512, "SECT512", "TXT", pat="ramp7"), c07.fspec("DAT", 256, "SECT256", "DAT", pat="ff"), c07.fspec("ASC", 2304, "GRAN1", "TXT", pat="55"),
-         c07.fspec("ML", 30, "V1.2", pat="ramp", load=0x2000, exec_=0x2001)]        # a name with a dot in it
+         c07.fspec("ML", 30, "V1.2", pat="ramp", load=0x2000, exec_=0x2001),        # a name with a dot in it
+         # names that begin or end with a quote character, next to the same name without it
+         c07.fspec("ML", 21, "'TIS", pat="ramp", load=0x2100, exec_=0x2101), c07.fspec("ML", 22, "TIS", pat="ramp7", load=0x2200, exec_=0x2201),
+         c07.fspec("BAS", 23, '"Q"', "BAS"),
+         # addresses at the very top of memory, and a text file with DOS line ends and an end-of-file mark
+         c07.fspec("ML", 14, "VECTORS", pat="ramp7", load=0xFFF2, exec_=0xFFFE), c07.fspec("ASC", 300, "DOSTEXT", "TXT", pat="dos")]
 DUP = 7
 
 
@@ -44,7 +49,8 @@ def source_sets(tier):
     yield [0, DUP, 1]
     yield [0, 1, DUP]
     yield [1, DUP, 0]
-    for fs in ([8], [9], [10], [0, 8], [8, 9], [9, 1, 8], [10, 8, 0], [11], [0, 11], [11, 1, 5]):
+    for fs in ([8], [9], [10], [0, 8], [8, 9], [9, 1, 8], [10, 8, 0], [11], [0, 11], [11, 1, 5], [12], [12, 13], [13, 12, 0], [14], [14, 12],
+               [15], [0, 15], [16], [16, 1]):
         yield fs
 
 
